@@ -117,8 +117,8 @@ PROPS = {
         module="SpqProofs.Properties.C07",
         extra_modules=["SpqProofs.Properties.Cover"],
         gen=["dispatch"],
-        streams=dict(quick=[("vz_box", "plain"), ("r4_layout", "plain"), ("r4_arith", "plain"), ("q1_prod", "plain"), ("ff_fft", "plain"), ("md_model", "plain"), ("md_prod", "plain"), ("md_vmp", "plain"), ("cv_rnx", "plain"), ("cv_cplxvec", "plain")],
-                     thorough=[("vz_box", "plain"), ("r4_layout", "plain"), ("r4_arith", "plain"), ("q1_prod", "plain"), ("ff_fft", "plain"), ("md_model", "plain"), ("md_prod", "plain"), ("md_vmp", "plain"), ("cv_rnx", "plain"), ("cv_cplxvec", "plain")]),
+        streams=dict(quick=[("vz_box", "plain"), ("r4_layout", "plain"), ("r4_arith", "plain"), ("q1_prod", "plain"), ("ff_fft", "plain"), ("md_model", "plain"), ("md_prod", "plain"), ("md_vmp", "plain"), ("cv_rnx", "plain"), ("cv_cplxvec", "plain"), ("big_align", "plain")],
+                     thorough=[("vz_box", "plain"), ("r4_layout", "plain"), ("r4_arith", "plain"), ("q1_prod", "plain"), ("ff_fft", "plain"), ("md_model", "plain"), ("md_prod", "plain"), ("md_vmp", "plain"), ("cv_rnx", "plain"), ("cv_cplxvec", "plain"), ("big_align", "plain")]),
         proved="Gen obligation: every kernel the live library installs (every constructor and module-table entry, 5 CPU masks, m = 2^0..2^16) belongs to its listed equivalence class; integer AVX loops = reference for every power-of-two dimension; family theorems imported: reim4/reim/cplx products ref = avx2/fma/sse/avx512 in exact arithmetic and layout kernels equal (C17), q120 AVX2 = reference word for word (C10/C04)",
         not_proved="float kernels of different variants differ by rounding: each variant is tied bit-exactly to its own model and to the exact-arithmetic definition, not to each other; AVX-512 FFT (cplx_fft_avx512) is not reached by any constructor on this dispatch table and is not modelled",
         level_text="kernel-decided dispatch-closure obligation on the table read back from the live library + Lean equivalence theorems per kernel family + pairwise bit-exact correspondence under both dispatch masks",
@@ -176,8 +176,8 @@ PROPS = {
         module="SpqProofs.Properties.C11",
         gen=["tmpbytes"],
         variants={"plain": None, "asan": None},
-        streams=dict(quick=[("mem_pairs", "asan"), ("vz_box", "asan"), ("vz_norm", "asan"), ("kz_probe", "asan"), ("kz_norm", "asan"), ("ca_prog", "asan"), ("md_prod", "asan"), ("md_vmp", "asan"), ("md_ntt", "asan"), ("cv_misc", "asan"), ("cv_rnx", "asan"), ("cv_cplxvec", "asan"), ("ca_small", "asan")],
-                     thorough=[("mem_pairs", "asan"), ("vz_box", "asan"), ("vz_norm", "asan"), ("kz_probe", "asan"), ("kz_norm", "asan"), ("ca_prog", "asan"), ("md_prod", "asan"), ("md_vmp", "asan"), ("md_ntt", "asan"), ("cv_misc", "asan"), ("cv_rnx", "asan"), ("cv_cplxvec", "asan"), ("ca_small", "asan")]),
+        streams=dict(quick=[("mem_pairs", "asan"), ("vz_box", "asan"), ("vz_norm", "asan"), ("kz_probe", "asan"), ("kz_norm", "asan"), ("ca_prog", "asan"), ("md_prod", "asan"), ("md_vmp", "asan"), ("md_ntt", "asan"), ("cv_misc", "asan"), ("cv_rnx", "asan"), ("cv_cplxvec", "asan"), ("ca_small", "asan"), ("big_align", "asan"), ("cv_misc", "plain")],
+                     thorough=[("mem_pairs", "asan"), ("vz_box", "asan"), ("vz_norm", "asan"), ("kz_probe", "asan"), ("kz_norm", "asan"), ("ca_prog", "asan"), ("md_prod", "asan"), ("md_vmp", "asan"), ("md_ntt", "asan"), ("cv_misc", "asan"), ("cv_rnx", "asan"), ("cv_cplxvec", "asan"), ("ca_small", "asan"), ("big_align", "asan"), ("cv_misc", "plain")]),
         proved="index logic of every limb-vector operation: declared extents inside the heap imply no out-of-bounds access of the model (all shapes incl. zero limb counts), frame theorems (C18) bound the writes, scratch of the normalisation = one carry limb = *_tmp_bytes; Gen obligation: size formulas = live *_tmp_bytes / bytes_of_* values",
         not_proved="runtime residue observed by ASan/UBSan-bounds/LSan on exactly-sized heap buffers, not proved: accesses inside float kernels and asm leaves, alloc/free pairing of new_*/delete_*, alignment, allocator overflow abort; DFT/SVP/VMP entry points are covered by the sanitizer streams only until the module-level model lands",
         level_text="Lean 4 theorems for the index logic (bounds flag, frame, scratch size) + kernel-decided size-formula obligation on live values; the memory-safety residue is tied by sanitizer builds on exact-size buffers (partial)",
@@ -213,8 +213,8 @@ PROPS = {
         title="Results depend only on arguments: no hidden state, history or alignment",
         module="SpqProofs.Properties.C15",
         gen=["globals", "caches"],
-        streams=dict(quick=[("ca_prog", "plain"), ("ca_irrelevant", "plain"), ("vz_box", "plain"), ("md_prod", "plain"), ("md_vmp", "plain"), ("ca_small", "plain")],
-                     thorough=[("ca_prog", "plain"), ("ca_irrelevant", "plain"), ("vz_box", "plain"), ("vz_norm", "plain"), ("md_prod", "plain"), ("md_vmp", "plain"), ("ca_small", "plain")]),
+        streams=dict(quick=[("ca_prog", "plain"), ("ca_irrelevant", "plain"), ("vz_box", "plain"), ("md_prod", "plain"), ("md_vmp", "plain"), ("ca_small", "plain"), ("big_align", "plain")],
+                     thorough=[("ca_prog", "plain"), ("ca_irrelevant", "plain"), ("vz_box", "plain"), ("vz_norm", "plain"), ("md_prod", "plain"), ("md_vmp", "plain"), ("ca_small", "plain"), ("big_align", "plain")]),
         proved="history independence of every function with function-local static state (structure extracted from the C source each run): after any call sequence the table in use was built with the call's own values of every table-relevant constructor argument; Gen obligations: every constructor argument is in the cache key, every function referencing mutable static storage is a modelled cache; purity of the limb-vector operations (outputs depend on source cells only)",
         not_proved="which constructor arguments are table-irrelevant is declared by hand (4 entries) and validated by byte-comparing tables (stream ca_irrelevant); buffer alignment independence is checked by the streams only (all loads are unaligned loads)",
         level_text="Lean 4 invariant proof over the cache state machine whose per-function structure is re-extracted from the C source on every run, plus kernel-decided obligations; rebuild events and outputs compared with the real code over random call programs",
